@@ -17,7 +17,13 @@ MAXID = 7
 def gen_script(rng, nops):
     """structured, mostly-valid event histories; ~8% deliberately invalid ops (bad-op stream)"""
     cfg = (rng.randint(0, 1), rng.randint(0, 1), rng.randint(0, 1))
-    lines = ["cfg %d %d %d" % cfg]
+    if rng.random() < 0.4:
+        # configuration through the command-line path (rfbProcessArguments)
+        fl = [f for f, on in zip(("-alwaysshared", "-nevershared", "-dontdisconnect"), cfg) if on]
+        rng.shuffle(fl)
+        lines = ["args " + " ".join(fl)] if fl else ["args"]
+    else:
+        lines = ["cfg %d %d %d" % cfg]
     nxt, pre, ready, normal = 0, [], [], []     # generator's own bookkeeping (not an oracle)
     for _ in range(nops):
         r = rng.random()
@@ -70,6 +76,8 @@ def oracle(script, impl):
         t = op.split()
         if t[0] == "cfg":
             cfg = tuple(int(x) for x in t[1:4])
+        elif t[0] == "args":
+            cfg = tuple(int(c or (f in t[1:])) for c, f in zip(cfg, ("-alwaysshared", "-nevershared", "-dontdisconnect")))
         elif t[0] == "conn" and ob == "ok":
             rev[int(t[1])] = int(t[2])
         elif t[0] == "init":
